@@ -1,4 +1,5 @@
 import DDP.Impl.ExprLadder
+import DDP.Proofs.LadderParse
 import DDP.Spec.Eval
 
 /-!
@@ -331,5 +332,99 @@ theorem unary_shape : (rung? "unary").map (·.calls) = some ["alias", "power", "
 theorem generator_levels : level "ifExpression" = some 1 ∧ level "boolOR" = some 3 ∧ level "equality" = some 8 ∧
     level "term" = some 11 ∧ level "factor" = some 12 ∧ level "unary" = some 13 ∧ level "negate" = some 14 ∧
     level "power" = some 15 ∧ level "primary" = some 20 := by decide
+
+/-! ## The ladder as a parser: what the chain rungs make of a token sequence
+
+`DDP.LadderParse.parse` is the executable model of the shape the theorems above read off the source (ten chain rungs,
+`unary` calling itself, `primary` restarting at the loosest rung inside parentheses), `ddpTbl` its operator table computed
+from the regenerated ladder. The tie (`vlib/laddercorr.py`) gives the same token sequences to this model and — spelled as
+DDP — to the real parser and compares the trees. -/
+
+open DDP.LadderParse in
+/-- the table computed from the source is the documented one: ten chain rungs; `oder` loosest, then `und`, the three
+`logisch` operators, three rungs further (equality, comparison, shifts) `plus / minus / verkettet mit`, then
+`mal / durch / modulo` -/
+theorem chain_table_from_source : ddpTbl.n = 10 ∧
+    (List.range 12).map ddpTbl.lv = [0, 1, 2, 3, 4, 8, 8, 8, 9, 9, 9, 10] := by decide
+
+open DDP.LadderParse in
+/-- … and these are the numbers the generator's printer parenthesises with: `P_x - P_OR` -/
+theorem chain_table_is_generator_table :
+    (chainOps.map (fun op => (buildersOf op).head?.bind level)).map (·.map (· - 3)) =
+      (List.range 11).map (fun o => some (ddpTbl.lv o)) := by decide
+
+open DDP.LadderParse in
+/-- every rung of the table is one of the loops `left_chains` found in the source: rung `k` of the model is the `k`-th
+function from `boolOR`, and that function is `next (op next)*` over the function after it -/
+theorem chain_rungs_are_source_loops :
+    (List.range ddpTbl.n).all (fun k =>
+      match (ladder.map (·.name))[chainBase + k]?, (ladder.map (·.name))[chainBase + k + 1]? with
+      | some r, some next => leftChains.contains (r, next) && (rung? r).any (isLeftChain · next)
+      | _, _ => false) = true := by decide
+
+open DDP.LadderParse in
+/-- **Minimal parentheses are faithful.** For every tree over the chain operators and the prefix operators, the parser
+(at the table of the DDP in /repo) reads the minimal-parentheses spelling back as that tree, and every larger fuel gives
+the same answer. Instance of `parse_pp` (`DDP/Proofs/LadderParse.lean`: any table, any tree, induction on the tree). -/
+theorem minimal_parentheses_faithful (e : E) (h : wf ddpTbl e) :
+    ∃ f₀, ∀ f, f₀ ≤ f → parse ddpTbl f 0 (pp ddpTbl 0 e) = some (e, []) :=
+  parse_pp_stable ddpTbl e h
+
+open DDP.LadderParse in
+/-- the same without fuel: `parseAll` runs the ladder with the fuel `fuel_suffices` proves sufficient for every input -/
+theorem minimal_parentheses_roundtrip (e : E) (h : wf ddpTbl e) : parseAll ddpTbl (pp ddpTbl 0 e) = some e :=
+  parseAll_pp ddpTbl e h
+
+open DDP.LadderParse in
+/-- `parseAll` answers exactly what the ladder answers with any amount of fuel (so the model driver of the tie, which calls
+`parseAll`, is the model and not a truncation of it) -/
+theorem parseAll_is_the_ladder (ts : List Tok) (e : E) :
+    parseAll ddpTbl ts = some e ↔ ∃ f, parse ddpTbl f 0 ts = some (e, []) :=
+  ⟨parseAll_sound ddpTbl, fun ⟨_, h⟩ => parseAll_complete ddpTbl h⟩
+
+open DDP.LadderParse in
+/-- the same inside a larger sentence: whatever follows, as long as it is not an operator word the rung would take -/
+theorem minimal_parentheses_faithful_in_context (e : E) (h : wf ddpTbl e) (k : Nat) (hk : k ≤ 10) (rest : List Tok)
+    (hrest : okRest ddpTbl k rest) : ∃ f, parse ddpTbl f k (pp ddpTbl k e ++ rest) = some (e, rest) :=
+  parse_pp_at ddpTbl e h k (by rw [chain_table_from_source.1]; exact hk) rest hrest
+
+open DDP.LadderParse in
+/-- **Minimal parentheses lose nothing**: different trees are spelled differently -/
+theorem minimal_parentheses_injective (e₁ e₂ : E) (h₁ : wf ddpTbl e₁) (h₂ : wf ddpTbl e₂)
+    (h : pp ddpTbl 0 e₁ = pp ddpTbl 0 e₂) : e₁ = e₂ :=
+  pp_injective ddpTbl e₁ e₂ h₁ h₂ h
+
+open DDP.LadderParse in
+/-- the parser is a function of the tokens: the fuel only decides whether it finishes -/
+theorem ladder_parse_deterministic {f f' k ts x y} (h : parse ddpTbl f k ts = some x) (h' : parse ddpTbl f' k ts = some y) :
+    x = y := parse_det ddpTbl h h'
+
+section examples
+open DDP.LadderParse
+
+/-- `1 plus 2 mal 3` is `1 plus (2 mal 3)` -/
+example : parseAll ddpTbl [.atom 1, .bop 5, .atom 2, .bop 8, .atom 3] =
+    some (.bin 5 (.atom 1) (.bin 8 (.atom 2) (.atom 3))) := by decide
+/-- `1 minus 2 minus 3` is `(1 minus 2) minus 3` -/
+example : parseAll ddpTbl [.atom 1, .bop 6, .atom 2, .bop 6, .atom 3] =
+    some (.bin 6 (.bin 6 (.atom 1) (.atom 2)) (.atom 3)) := by decide
+/-- `a oder b und nicht c plus d` -/
+example : parseAll ddpTbl [.atom 1, .bop 0, .atom 2, .bop 1, .uop 0, .atom 3, .bop 5, .atom 4] =
+    some (.bin 0 (.atom 1) (.bin 1 (.atom 2) (.bin 5 (.un 0 (.atom 3)) (.atom 4)))) := by decide
+/-- the right-nested tree needs its parentheses, the left-nested one none; the hypothesis of the theorem is met -/
+example : pp ddpTbl 0 (.bin 6 (.atom 1) (.bin 6 (.atom 2) (.atom 3))) =
+    [.atom 1, .bop 6, .lp, .atom 2, .bop 6, .atom 3, .rp] ∧
+    pp ddpTbl 0 (.bin 6 (.bin 6 (.atom 1) (.atom 2)) (.atom 3)) = [.atom 1, .bop 6, .atom 2, .bop 6, .atom 3] ∧
+    wf ddpTbl (.bin 6 (.atom 1) (.bin 6 (.atom 2) (.atom 3))) := by decide
+/-- a prefix operator binds tighter than every chain: `nicht (a und b)` keeps its parentheses, `(nicht a) und b` drops them -/
+example : pp ddpTbl 0 (.un 0 (.bin 1 (.atom 1) (.atom 2))) = [.uop 0, .lp, .atom 1, .bop 1, .atom 2, .rp] ∧
+    pp ddpTbl 0 (.bin 1 (.un 0 (.atom 1)) (.atom 2)) = [.uop 0, .atom 1, .bop 1, .atom 2] := by decide
+/-- the table matters: with `mal` moved to the rung of `plus` the same tokens give another tree -/
+example : parseAll ⟨10, fun o => if o = 8 then 8 else ddpTbl.lv o⟩ [.atom 1, .bop 5, .atom 2, .bop 8, .atom 3] =
+    some (.bin 8 (.bin 5 (.atom 1) (.atom 2)) (.atom 3)) := by decide
+/-- ill-formed sequences are rejected, not repaired -/
+example : parseAll ddpTbl [.atom 1, .bop 5] = none ∧ parseAll ddpTbl [.atom 1, .atom 2] = none ∧
+    parseAll ddpTbl [.lp, .atom 1] = none ∧ parseAll ddpTbl [.bop 5, .atom 1] = none := by decide
+end examples
 
 end DDP.Ladder
